@@ -380,7 +380,7 @@ def check(ctx):
             cd = dict(p.conds)
             hp = cd.get("command.parameters|length > 0")
             hc = cd.get("command.channels|length > 0")
-            either = cd.get("command.parameters|length > 0 or command.channels|length > 0")
+            either = False if (hp is False and hc is False) else None
             if either is False:
                 combos = [(False, False)]
             elif mode == "typescript":
